@@ -526,6 +526,8 @@ theorem inv_step (v : Version) (s : State) (op : Op) (h : Inv s) : Inv (step v s
       | ok s' => exact absurd hs (hr s')
       | raised e s' => rw [hs] at this; exact this
   | shutdownIx ca => exact inv_shutdownIx s ca h
+  | shutdownSendIx ca => exact inv_shutdownIx s ca h
+  | shutdownReceiveIx ca => exact inv_shutdownIx s ca h
   | closeIx ca => exact inv_closeIx s ca h
   | closeAllIx => exact inv_closeAllLoop s s.ixes h
   | removeIx ca sc => exact inv_removeIx s ca sc h
@@ -988,6 +990,8 @@ theorem acc_step (s : State) (op : Op) (h : AccInv s) : AccInv (step .fixed2 s o
       | ok s' => exact absurd hs (hr s')
       | raised e s' => rw [hs] at this; exact this
   | shutdownIx ca => exact acc_shutdownIx s ca h
+  | shutdownSendIx ca => exact acc_shutdownIx s ca h
+  | shutdownReceiveIx ca => exact acc_shutdownIx s ca h
   | closeIx ca => exact acc_closeIx s ca h
   | closeAllIx => exact acc_closeAllLoop s s.ixes h
   | removeIx ca sc => exact acc_removeIx s ca sc h
